@@ -1513,11 +1513,15 @@ func (g *Gen) scenarios() []intent {
 			if g.rng.Intn(2) == 0 {
 				// ... nor does the code that just logged the session in switch the factor off (it is not a CURRENT
 				// code any more), neither at once nor - the stored last code - much later
+				remover, rcode := b1, code // whoever of the two is logged in now
+				if first.K == "mut" {
+					remover = b2
+				}
 				if g.rng.Intn(2) == 0 {
 					out = append(out, SymStep{Kind: "tick", D: 7000})
-					again = Desc{K: "stored", U: u, V: "totp_last"}
+					rcode = Desc{K: "stored", U: u, V: "totp_last"}
 				}
-				out = append(out, g.req(b1, "POST", "TotpRemove", []KV{{"code", again}}))
+				out = append(out, g.req(remover, "POST", "TotpRemove", []KV{{"code", rcode}}))
 			}
 			return out
 		})
